@@ -366,8 +366,12 @@ def run_parse(r: Run, prop):
     rng = random.Random(r.seed + 5)
     grouped = ["(Na)2O", "H2(SO4)", "(C(Cl)3)2", "C(Na)", "(H)2Na", "Na(H)2", "((Na))", "H(O(S))", "NaCl", "Cl", "(Cl)",
                "(C2H5)2O", "C[13](H)2", "(C[13])2", "(Cl[37])2", "H+", "(H+)2", "O(H+)", "(Uuh)", "CH4(N2)3(S)", "(((S)))2"]
-    for sub in ("C,H,N,O", "H", "C,Cl,Na", "-", "O,S,H+,Uuh", "C,H,N,O,S,P,Na,K,Cl"):
+    for sub in ("C,H,N,O", "H", "C,Cl,Na", "-", "O,S,H+,Uuh", "C,H,N,O,S,P,Na,K,Cl", "C,H,N,O,Cl,S!n"):
         pool = grouped + rng.sample(wf, min(len(wf), 60 if r.tier == "thorough" else 25)) + rng.sample(mal, min(len(mal), 40))
+        if sub.endswith("!n"):
+            # every isotope number from 1 to 40 on the table's elements: the ones the element has parse, the others do not
+            pool = pool + [f"{sy}[{k}]{c}" for sy in ("C", "H", "N", "O", "Cl", "S") for k in range(1, 41) for c in ("", "2")] + \
+                ["(N[8])3", "C[6]2H4", "C[13]2H4", "(Cl[37])2O[18]"]
         cases += [(t, False, sub) for t in pool if len(t) < 300]
 
     def line_of(t, sub):
